@@ -97,7 +97,14 @@ class RWorld:
         self.rec('BD', self.snapshot())
 
 
+class Num:
+    """Marker: items that are equal (1 == 1.0 == True) yet distinct values, told apart by their type."""
+    TYPES = {'int': 1, 'float': 1.0, 'bool': True}
+
+
 def item_uid(x):
+    if type(x) in (int, float, bool) and x == 1 and getattr(item_uid, 'nums', False):
+        return ('NUM', type(x).__name__)
     if isinstance(x, Packet):
         return ('PKT', x.src, x.payload)
     if isinstance(x, PriorityItem):
@@ -106,6 +113,8 @@ def item_uid(x):
 
 
 def mk_item(spec):
+    if isinstance(spec, dict) and spec.get('num'):
+        return Num.TYPES[spec['num']]
     if isinstance(spec, dict):
         if spec.get('pkt'):
             # a Packet as store item; several packets may carry the same (src, flow, id) - they are still distinct items
@@ -125,6 +134,8 @@ def mk_filter(f):
     if f == 'none':
         return lambda item: False
     col = f
+    if f in ('isint', 'isfloat', 'isbool'):
+        return lambda item, t={'isint': int, 'isfloat': float, 'isbool': bool}[f]: type(item) is t
     if isinstance(f, list):
         # matches one particular packet (by its unique payload)
         return lambda item, u=f[1]: isinstance(item, Packet) and item.payload == u
@@ -360,6 +371,8 @@ def interrupter_body(w, plan):
 
 
 def run_case(case, max_steps=6000):
+    item_uid.nums = any(isinstance(op.get('item'), dict) and op['item'].get('num')
+                        for p in case.get('procs', []) for op in p.get('ops', []))
     w = RWorld(case)
     env = w.env
     order = case.get('order') or [p['id'] for p in case.get('procs', [])] + ['#intr']
@@ -447,7 +460,11 @@ def gen_store_case(rng, tier):
         if cap is not None:
             init = min(init, cap)
         amounts = rng.choice([[1, 2, 3, 5], [1, 1, 2], [0.5, 1, 2.5, 4], [2, 3, 8],
-                              [2.0 ** -32, 3 * 2.0 ** -32, 2.0 ** -30]])
+                              [2.0 ** -32, 3 * 2.0 ** -32, 2.0 ** -30], [0.1, 0.35, 0.6, 1.1, 2.2]])
+        if amounts[0] == 0.1:
+            # decimal fractions: sums are rounded, "fits exactly" and "one ulp too much" lie next to each other
+            cap = rng.choice([1.7, 2.9, 0.7, 3.3, None])
+            init = rng.choice([0, 0, 0.1, 0.6])
         if amounts[0] < 1e-6:
             cap = rng.choice([None, 2.0 ** -28, 2.0 ** -29])
             init = 0
@@ -457,6 +474,10 @@ def gen_store_case(rng, tier):
     pkt_items = kind == 'FilterStore' and rng.random() < 0.35
     # PriorityItems (several of equal priority) held in a FilterStore: items are items, whatever their == says
     pi_items = kind == 'FilterStore' and not pkt_items and rng.random() < 0.25
+    # items that compare equal but are different values: 1, 1.0, True (at most one of each in the whole history)
+    num_items = kind == 'FilterStore' and not pkt_items and not pi_items and rng.random() < 0.2
+    nums_left = ['int', 'float', 'bool']
+    rng.shuffle(nums_left)
     made_pkts = []
     procs = []
     for p in range(nprocs):
@@ -480,12 +501,16 @@ def gen_store_case(rng, tier):
                     u = nu()
                     op['item'] = {'pkt': True, 'ids': [rng.choice(['r', 'g', 'b']), rng.randint(0, 1), rng.randint(1, 2)], 'u': u}
                     made_pkts.append(u)
+                elif kind == 'FilterStore' and num_items and nums_left:
+                    op['item'] = {'num': nums_left.pop()}
                 elif kind == 'FilterStore' and pi_items:
                     op['item'] = {'pi': True, 'p': rng.choice([1, 1, 2]), 'u': [rng.choice(['r', 'g', 'b']), nu()]}
                 elif kind == 'FilterStore':
                     op['item'] = [rng.choice(['r', 'g', 'b']), nu()]
                 else:
                     op['item'] = nu()
+            elif kind == 'FilterStore' and num_items:
+                op['filter'] = rng.choice(['any', 'isint', 'isfloat', 'isbool', 'none'])
             elif kind == 'FilterStore':
                 op['filter'] = rng.choice(['any', 'r', 'g', 'b', 'r', 'none'])
                 if pkt_items and made_pkts and rng.random() < 0.5:
